@@ -1546,11 +1546,12 @@ class SpaceManager(SharedSpaceOperations):
             is_relative = False
             if name in subspace.own_refs:
                 break
+            subvalue = value    # Each sub space binds its own object
             if isinstance(value, Interface) and value._is_valid():
                 if refmode == "auto" or refmode == "relative":
-                    is_relative, value = self.get_relative_interface(
+                    is_relative, subvalue = self.get_relative_interface(
                         subspace, space.own_refs[name])
-            ref = subspace.on_create_ref(name, value, is_derived=True,
+            ref = subspace.on_create_ref(name, subvalue, is_derived=True,
                                    refmode=refmode)
             ref.is_relative = is_relative
 
@@ -1575,12 +1576,13 @@ class SpaceManager(SharedSpaceOperations):
                 continue
             elif subref.defined_bases[0] is not space.own_refs[name]:
                 continue
+            subvalue = value    # Each sub space binds its own object
             if isinstance(value, Interface) and value._is_valid():
                 if (refmode == "auto"
                         or refmode == "relative"):
-                    is_relative, value = self.get_relative_interface(
+                    is_relative, subvalue = self.get_relative_interface(
                         subspace, space.own_refs[name])
-            subspace.on_change_ref(name, value,
+            subspace.on_change_ref(name, subvalue,
                                    is_derived=True, refmode=refmode,
                                    is_relative=is_relative)
             # on_change_ref returns the replaced reference
